@@ -296,6 +296,12 @@ class JokerSamples:
             The samples converted to an orbit object. The barycenter position
             and distance are set to arbitrary values.
         """
+        # Samples without a reference time (e.g. from data with ``t_ref=False``):
+        # nothing was subtracted from the times, i.e. the epoch is BMJD 0
+        t_ref = self.t_ref
+        if t_ref is None:
+            t_ref = Time(0.0, format="mjd", scale="tcb")
+
         if "orbit" not in self._cache:
             self._cache["orbit"] = KeplerOrbit(
                 P=1 * u.yr,
@@ -304,7 +310,7 @@ class JokerSamples:
                 Omega=0 * u.deg,
                 i=90 * u.deg,
                 a=1 * u.au,
-                t0=self.t_ref,
+                t0=t_ref,
             )
 
         # all of this to avoid the __init__ of KeplerOrbit / KeplerElements
@@ -336,7 +342,7 @@ class JokerSamples:
         M0 = M0[index]
         trend_coeffs = [x[index] for x in trend_coeffs]
 
-        orbit.elements.t0 = self.t_ref
+        orbit.elements.t0 = t_ref
         orbit.elements._P = P
         orbit.elements._e = e * u.dimensionless_unscaled
         orbit.elements._a = a
@@ -344,7 +350,7 @@ class JokerSamples:
         orbit.elements._M0 = M0
         orbit.elements._Omega = kwargs.pop("Omega", 0 * u.deg)
         orbit.elements._i = kwargs.pop("i", 90 * u.deg)
-        orbit._vtrend = PolynomialRVTrend(trend_coeffs, t0=self.t_ref)
+        orbit._vtrend = PolynomialRVTrend(trend_coeffs, t0=t_ref)
         orbit._barycenter = kwargs.pop("barycenter", None)
 
         if kwargs:
